@@ -8,6 +8,8 @@ with _vnacal_hold_parameter) may have been changed before the failed allocation 
 the same field is written again on the failure path (undo).  Pointer fields (results of
 realloc that must be published) are bookkeeping, not logical state, and are not counted.
 """
+import re
+
 from ..core import Finding, RuleResult
 from ..flow import Engine, TooManyStates
 from ..consttrack import ConstTracker
@@ -171,9 +173,22 @@ def run(P, tier="quick"):
     R.counts["mode_switch_members"] = len(modes)
     nf = 0
     for f in P.lib_functions():
-        if f.cfg is None or not obj_params(f) or f.file in LATE_FAILURE_FILES:
+        if f.cfg is None or f.file in LATE_FAILURE_FILES:
+            continue
+        # objects: the handle types of R18, and any non-const pointer to a library structure (internal nodes such as the
+        # property-list node a static helper extends)
+        extra = {p["decl"]: i for i, p in enumerate(f.params)
+                 if re.match(r"^(struct )?vna\w+ \*$", (p.get("t") or "")) and "const" not in (p.get("t") or "")}
+        # a function that memsets the whole structure is its constructor: nothing "pre-existing" is committed
+        for c in f.calls("memset"):
+            a0 = c.args()[0].strip() if c.args() else None
+            if a0 is not None and a0.k == "DeclRefExpr" and a0.refdecl in extra:
+                extra.pop(a0.refdecl)
+        if not obj_params(f) and not extra:
             continue
         tr = CommitTracker(P, f, sysfail, modes)
+        for d, i in extra.items():
+            tr.roots.params.setdefault(d, i)
         try:
             Engine(f, tr, 300000).run()
         except TooManyStates as e:
